@@ -8,6 +8,7 @@
 //! is then emitted as a stub that does not elaborate, so the theorems depending on it
 //! stop checking.  See DESIGN.md §3.2.
 
+mod norm;
 mod tr;
 mod surface;
 
@@ -52,11 +53,14 @@ fn main() {
             }
         };
         match syn::parse_file(&text) {
-            Ok(ast) => parsed.push(tr::SrcFile {
+            Ok(mut ast) => {
+                norm::normalise(&mut ast);
+                parsed.push(tr::SrcFile {
                 stem: stem.clone(),
                 path: rel(path, &src),
                 ast,
-            }),
+            })
+            }
             Err(e) => {
                 eprintln!("parse error {}: {}", path.display(), e);
                 std::process::exit(3);
